@@ -7,7 +7,8 @@ PROP_FILE = "Properties/Properties_C16.v"
 RULE = ("all schedules by construction: the section table and symbol table of every object file of the library, rebuilt with "
         "the shipping flags from the current tree, are scanned for writable, thread-local and COMMON data and the sources for "
         "function-local static variables (translator -> Gen/Globals.v, theorem c16_no_writable_state); additionally 8 and 16 "
-        "threads run a mixed generate/parse workload and each thread's digest is compared with the sequential run (quick: "
+        "threads run a mixed generate/parse workload and each thread's digest is compared with the sequential run, then fresh processes in which "
+        "the barrier-started threads make the very first library calls of the process (quick: "
         "plain build; thorough, or whenever the theorem no longer checks: under ThreadSanitizer); non-trivial = one thread run")
 TRUSTED = ["Coq 8.16.1 kernel", "translator: gcc -O2 -fPIC objects + readelf -S/-s (writable = flags W or T, excluding .data.rel.ro), regex scan "
            "for function-local statics", "Model/Threads.v: interleaving semantics whose only shared component is the library's writable state",
@@ -61,6 +62,14 @@ def extra(ctx):
                 iters = (20000 if not tsan else 4000) if thorough else 1500
                 rc, out = V.sh([exe, str(n), str(iters)], timeout=1800, env=dict(os.environ, TSAN_OPTIONS="halt_on_error=0 exitcode=66"))
                 runs.append({"threads": n, "tsan": tsan, "rc": rc, "out": out[-300:]})
+                if rc == 0 and "mismatches=0" in out and "WARNING: ThreadSanitizer" not in out:
+                    # first use: fresh processes in which the threads make the library's very first calls together (3 iterations each),
+                    # the sequential reference computed afterwards - lazily initialised tables and one-time flags are written here
+                    for k in range((40 if not tsan else 6) * (4 if thorough else 1)):
+                        rc, out = V.sh([exe, str(n), "3", "1"], timeout=600, env=dict(os.environ, TSAN_OPTIONS="halt_on_error=0 exitcode=66"))
+                        if rc != 0 or "mismatches=0" not in out or "WARNING: ThreadSanitizer" in out:
+                            break
+                    runs.append({"threads": n, "tsan": tsan, "rc": rc, "out": out[-300:], "first_use_processes": k + 1})
                 if "WARNING: ThreadSanitizer" in out:
                     viol.append(("data-race", "ThreadSanitizer reports a data race with %d threads" % n,
                                  {"case": "threads %d tsan" % n, "impl": out[-1500:]}))
